@@ -62,7 +62,9 @@ fn main() {
                         let mut st: u64 = 0x9E3779B97F4A7C15 ^ (cfg.seed.wrapping_mul(0x2545F4914F6CDD1D)) | 1;
                         let mut next = || { st ^= st << 13; st ^= st >> 7; st ^= st << 17; st };
                         let (lo, hi) = cfg.float_search;
+                        let t_search = std::time::Instant::now();
                         for _trial in 0..cfg.float_search_trials {
+                            if t_search.elapsed().as_secs() > 120 { break; }
                             let mut m = BTreeMap::new();
                             for n in &names {
                                 let u = (next() >> 11) as f64 / (1u64 << 53) as f64;
@@ -91,10 +93,12 @@ fn main() {
                     // follow.  Look for an input on which the real code fails the same obligation (seeded; a hit is a
                     // genuine, replayed counterexample, a miss leaves the candidate unconfirmed = inconclusive).
                     let names: Vec<String> = c.model.keys().filter(|k| !k.contains('(')).cloned().collect();
+                    let t_search = std::time::Instant::now();
                     let mut st: u64 = 0xD1B54A32D192ED03 ^ (cfg.seed.wrapping_mul(0x9E3779B97F4A7C15)) | 1;
                     let mut next = || { st ^= st << 13; st ^= st >> 7; st ^= st << 17; st };
                     let (lo, hi) = cfg.real_search;
                     for trial in 0..300u32 {
+                        if names.is_empty() || t_search.elapsed().as_secs() > 30 { break; }
                         let mut m = BTreeMap::new();
                         for n in &names {
                             let steps = 32.0;
@@ -125,7 +129,9 @@ fn main() {
                 let (lo, hi) = cfg.real_search;
                 let mut found: BTreeMap<String, (BTreeMap<String, String>, &str)> = BTreeMap::new();
                 if !labels.is_empty() && labels.len() <= 12 {
+                    let t_search = std::time::Instant::now();
                     for _trial in 0..200u32 {
+                        if rep.var_names.is_empty() || t_search.elapsed().as_secs() > 60 { break; }
                         let mut m = BTreeMap::new();
                         for n in &rep.var_names { let k = (next() >> 40) % 33; m.insert(n.clone(), format!("{}", lo + (hi - lo) * (k as f64) / 32.0)); }
                         for float in [false, true] {
